@@ -76,6 +76,15 @@ ITER_FRAGMENT = [
     ("Iter_len", r"impl<T> ExactSizeIterator for Iter<'_, T>", "len", "_root_.CircBuf.Iter.len"),
     ("Iter_next", r"impl<'a, T> Iterator for Iter<'a, T>", "next", "fun it => pure (_root_.CircBuf.Iter.next it)"),
     ("Iter_next_back", r"impl<T> DoubleEndedIterator for Iter<'_, T>", "next_back", "fun it => pure (_root_.CircBuf.Iter.nextBack it)"),
+    # `IterMut` has its own copy of the same code (over `&mut` slices); the model has one iterator
+    ("IterMut_empty", r"impl<'a, T> IterMut<'a, T>", "empty", "pure _root_.CircBuf.Iter.empty"),
+    ("IterMut_new", r"impl<'a, T> IterMut<'a, T>", "new", "_root_.CircBuf.Iter.new"),
+    ("IterMut_advance_front_by", r"impl<'a, T> IterMut<'a, T>", "advance_front_by", "_root_.CircBuf.Iter.advanceFrontBy"),
+    ("IterMut_advance_back_by", r"impl<'a, T> IterMut<'a, T>", "advance_back_by", "_root_.CircBuf.Iter.advanceBackBy"),
+    ("IterMut_over_range", r"impl<'a, T> IterMut<'a, T>", "over_range", "_root_.CircBuf.Iter.overRange"),
+    ("IterMut_len", r"impl<T> ExactSizeIterator for IterMut<'_, T>", "len", "_root_.CircBuf.Iter.len"),
+    ("IterMut_next", r"impl<'a, T> Iterator for IterMut<'a, T>", "next", "fun it => pure (_root_.CircBuf.Iter.next it)"),
+    ("IterMut_next_back", r"impl<T> DoubleEndedIterator for IterMut<'_, T>", "next_back", "fun it => pure (_root_.CircBuf.Iter.nextBack it)"),
 ]
 # the draining iterator (`src/drain.rs`): its constructor, `read`, and the stepping methods.  `self` is a
 # `Drain { bufSize, rs, re, is, ie }` value named `d` (`buf_size`, `range.start/end`, `iter.start/end`); the
@@ -539,6 +548,7 @@ class Emit:
         self.tmp = 0
         self.ndoc = 0            # documented panics seen so far in this function
         self.iter_mode = False   # `self` is an `Iter { right, left }` value named `it`
+        self.iter_prefix = "Iter_"   # or "IterMut_": which family `Self::new`, `it.advance_front_by` refer to
         self.drain_mode = False  # `self` is a `Drain` value named `d`
         self.csp_mode = False    # `self` is a `CSP` value named `p`
         self.live_guards = {}    # drain mode: guard values that are dropped explicitly (`drop(g)`), by name
@@ -748,15 +758,15 @@ class Emit:
             f = "amod" if name == "add_mod" else "smod"
             return pre + [f"let {t} ← {f} {' '.join(vals)}"], t, "nat"
         if name == "Self::empty" and not args:
-            return [], "Iter.empty" if "Iter_empty" not in self.fragment else "(← Gen.Iter_empty)", "iter"
+            return [], "Iter.empty" if (self.iter_prefix + "empty") not in self.fragment else f"(← Gen.{self.iter_prefix}empty)", "iter"
         if name == "Self::new":
-            return [], "(← Gen.Iter_new)", "iter"
+            return [], f"(← Gen.{self.iter_prefix}new)", "iter"
         if name == "translate_range_bounds":
             if len(args) != 2 or self.kinds.get(args[1][1] if args[1][0] == "path" else None) != "rangebounds":
                 raise TErr("translate_range_bounds: unexpected arguments")
             t = self.fresh("r")
             return [f"let {t} ← Gen.translate_range_bounds sb eb"], t, "tuple:nat,nat"
-        if name == "slice_take":
+        if name in ("slice_take", "slice_take_mut"):
             # slice_take(&mut self.right, ..n) / (&mut self.left, n..): the slice keeps the other part
             a0, a1 = args
             if not (self.iter_mode and a0[0] == "ref" and a0[1] and a0[2][0] == "field"
@@ -913,22 +923,22 @@ class Emit:
         if recv[0] == "path" and self.kinds.get(recv[1]) == "bufref":
             if name == "len" and not args:
                 return [], "(← getBuf).size", "nat"
-            if name == "as_slices" and not args:
+            if name in ("as_slices", "as_mut_slices") and not args:
                 t = self.fresh("r")
-                return [f"let {t} ← Gen.as_slices"], t, "tuple:view,view"
+                return [f"let {t} ← Gen.{name}"], t, "tuple:view,view"
             raise TErr(f"unsupported method .{name}() on the buffer reference")
         if recv[0] == "path" and self.kinds.get(recv[1]) == "rangebounds" and not args:
             if name == "start_bound":
                 return [], "sb", "bound"
             if name == "end_bound":
                 return [], "eb", "bound"
-        if recv[0] == "path" and self.kinds.get(recv[1]) == "iter" and ("Iter_" + name) in self.fragment:
+        if recv[0] == "path" and self.kinds.get(recv[1]) == "iter" and (self.iter_prefix + name) in self.fragment:
             pre, vals = [], []
             for a in args:
                 p, v, _ = self.ex(a)
                 pre += p; vals.append(par(v))
             n = lean_name(recv[1])
-            return pre + [f"let {n} ← Gen.Iter_{name} {n} {' '.join(vals)}"], "()", "unit"
+            return pre + [f"let {n} ← Gen.{self.iter_prefix}{name} {n} {' '.join(vals)}"], "()", "unit"
         if recv == ("path", "self") and self.iter_mode:
             raise TErr(f"call to self.{name} in the iterator layer")
         if recv[0] == "path" and self.kinds.get(recv[1]) == "range" and name == "is_empty" and not args:
@@ -1484,6 +1494,7 @@ def translate_iter(src, gname, impl_re, fname, fragment):
     ast = Parser(tokenize(body)).block()
     em = Emit(gname, fragment)
     em.iter_mode = True
+    em.iter_prefix = "IterMut_" if gname.startswith("IterMut_") else "Iter_"
     lean_params = []
     for n, t, kk in params:
         em.kinds[n] = kk
@@ -1726,6 +1737,8 @@ def generate(force_fallback):
                 "Iter_advance_front_by": "Iter → Nat → M (Iter)", "Iter_advance_back_by": "Iter → Nat → M (Iter)",
                 "Iter_over_range": "Bound → Bound → M (Iter)", "Iter_len": "Iter → M (Nat)",
                 "Iter_next": "Iter → M (Option Nat × Iter)", "Iter_next_back": "Iter → M (Option Nat × Iter)"}
+    for k in ("empty", "new", "advance_front_by", "advance_back_by", "over_range", "len", "next", "next_back"):
+        ITER_SIG["IterMut_" + k] = ITER_SIG["Iter_" + k]
     try:
         isrc = strip_comments(open(ipath).read())
     except OSError:
